@@ -21,7 +21,7 @@ func foundationTable() map[string]foundation {
 	return map[string]foundation{
 		"read-loop": {"read-loop", "the channel read loop enqueues every successful non-empty transport read exactly once, with only CR removal and ANSI stripping applied; the read-until loops return everything they dequeued", 6,
 			func(c *Ctx, sub *Report) { checkReadLoopEnqueue(c, sub); checkReadUntilLoops(c, sub) }, []string{"C01/enqueue-once"}},
-		"transport-pipe": {"transport-pipe", "each built-in transport's Read returns exactly the bytes of one underlying read, Write forwards the caller's bytes, and the Transport wrapper passes both through unchanged", 10,
+		"transport-pipe": {"transport-pipe", "each built-in transport's Read returns exactly the bytes of one underlying read, Write forwards the caller's bytes, and the Transport wrapper passes both through unchanged", 9,
 			func(c *Ctx, sub *Report) {
 				for _, typ := range []string{"System", "Standard", "Telnet"} {
 					checkReadPrefix(c, sub, typ)
